@@ -4,3 +4,4 @@ import contracts.util_strings  # noqa
 import contracts.marks  # noqa
 
 INFO = {'not_decided': [], 'stated_lemmas': [], 'trusted': []}
+import props._all  # noqa
